@@ -22,7 +22,11 @@
   Two protocols:
    `asFound`  — the code in /repo: `_save_to_disk` = remove + open("wb") + dump (in place); marker written in place right
                 after sl.save, BEFORE energy_history_<base> and minisanity_history_<base>; histories written in place.
-   `repaired` — fixes/C25_atomic_marker_and_files.diff: every file via temp + os.replace; marker written last.
+   `atomicOnly` — fixes/C25_atomic_marker_and_files.diff: every file via temp + os.replace; marker written last.
+                (crash safe for strategy `all`; strategy `latest` still has a window, see Props/C25.lean)
+   `repaired` — additionally fixes/C25_latest_invalidate_marker.diff: with strategy `latest` the marker is REMOVED before the
+                files latest.* are overwritten (a crash in between makes the resumed run start from scratch), and written
+                again when everything of the iteration is in place.
 -/
 import NiftyVerif.Model.CrashFS
 namespace NiftyVerif.CrashCl
@@ -53,12 +57,12 @@ inductive Path where
   deriving DecidableEq, Repr
 
 inductive Proto where
-  | asFound | repaired
+  | asFound | atomicOnly | repaired
   deriving DecidableEq, Repr
 
 inductive Err where
   | markerParse      -- int(f.read()) raised ValueError
-  | noMean           -- <base>.mean.pickle missing (the driver then takes the SampleList branch, which fails for VI runs)
+  | noMean           -- <base>.mean.pickle missing and not exactly one sample file: the SampleList branch's myassert fails
   | noSamples        -- _list_local_sample_files / _consecutive_length raised
   | unpickle         -- a pickle.load raised (truncated file / inconsistent set)
   | missing          -- FileNotFoundError (random state, energy history, minisanity history)
@@ -68,8 +72,8 @@ structure Sys (S : Type) where
   step : Nat → S → S                            -- global iteration `iglobal` on (sample list, mean)
   nsamp : Nat                                   -- number of sample files written per iteration
   encSample : S → Nat → Bytes                   -- pickle of [residual_k, neg_k]
-  encMean : S → Bytes                           -- pickle of the mean
-  decState : Bytes → List Bytes → Option S      -- ResidualSampleList.load(mean file, sample files); none = raises
+  encMean : S → Option Bytes                    -- pickle of the mean; none: a MAP iteration (SampleList: no mean file)
+  decState : Option Bytes → List Bytes → Option S  -- (Residual)SampleList.load(mean file if present, sample files); none = raises
   encE : Nat → Bytes                            -- pickle of the energy history after iteration i
   okE : Bytes → Bool                            -- pickle.load of an energy-history file succeeds
   encM : Nat → Bytes                            -- pickle of the minisanity history after iteration i
@@ -91,30 +95,53 @@ def inplaceSave (p : Path) (c : Bytes) : List (Op Path) := Op.remove p :: writeF
 def saveOne (proto : Proto) (p t : Path) (c : Bytes) : List (Op Path) :=
   match proto with
   | .asFound => inplaceSave p c
+  | .atomicOnly => atomicWrite p t c
   | .repaired => atomicWrite p t c
 
 /-- `_pickle_save_values`: in place as found, temp + replace when repaired -/
 def saveValues (proto : Proto) (p t : Path) (c : Bytes) : List (Op Path) :=
   match proto with
   | .asFound => writeFile p c
+  | .atomicOnly => atomicWrite p t c
   | .repaired => atomicWrite p t c
 
-/-- `ResidualSampleList.save(base, overwrite=True)`: unlink the "next" sample, the samples in order, then the mean -/
+/-- MAP iteration, repaired protocol (fixes/C25_map_stale_mean.diff): `SampleList.save(overwrite=True)` unlinks a mean file
+    left over under the same base name -/
+def unlinkMean {S : Type} (sys : Sys S) (proto : Proto) (b : Base) (s : S) : List (Op Path) :=
+  match sys.encMean s, proto with
+  | none, .repaired => [Op.remove (.mean b)]
+  | _, _ => []
+
+/-- VI iteration: the mean is saved last -/
+def saveMean {S : Type} (sys : Sys S) (proto : Proto) (b : Base) (s : S) : List (Op Path) :=
+  match sys.encMean s with
+  | some c => saveOne proto (.mean b) (.meanTmp b) c
+  | none => []
+
+/-- `ResidualSampleList.save(base, overwrite=True)` / `SampleList.save`: unlink the "next" sample, (MAP: unlink a stale mean
+    file,) the samples in order, (VI: then the mean) -/
 def saveSamples {S : Type} (sys : Sys S) (proto : Proto) (b : Base) (s : S) : List (Op Path) :=
-  Op.remove (.sample b sys.nsamp) ::
+  Op.remove (.sample b sys.nsamp) :: (unlinkMean sys proto b s ++
     ((List.range sys.nsamp).flatMap (fun k => saveOne proto (.sample b k) (.sampleTmp b k) (sys.encSample s k))
-      ++ saveOne proto (.mean b) (.meanTmp b) (sys.encMean s))
+      ++ saveMean sys proto b s))
 
 def saveMarker (proto : Proto) (c : Bytes) : List (Op Path) :=
   match proto with
   | .asFound => writeFile .marker c
+  | .atomicOnly => atomicWrite .marker .markerTmp c
   | .repaired => atomicWrite .marker .markerTmp c
+
+/-- `_invalidate_last_finished_iteration()`: only in the repaired protocol and only for strategy `latest` -/
+def invalidate (proto : Proto) (strat : Strategy) : List (Op Path) :=
+  match proto, strat with
+  | .repaired, .latest => [Op.remove .marker]
+  | _, _ => []
 
 /-- part of iteration `j` before `_minisanity` loads the previous minisanity history -/
 def iterOpsA {S : Type} (sys : Sys S) (proto : Proto) (strat : Strategy) (j : Nat) (s' : S) : List (Op Path) :=
   let b := baseOf strat j
-  saveSamples sys proto b s' ++
-    (match proto with | .asFound => saveMarker proto (sys.digits j) | .repaired => []) ++
+  invalidate proto strat ++ saveSamples sys proto b s' ++
+    (match proto with | .asFound => saveMarker proto (sys.digits j) | _ => []) ++
     saveValues proto (.ehist b) (.ehistTmp b) (sys.encE j) ++
     appendFile .sanity (sys.msgS j)
 
@@ -122,7 +149,7 @@ def iterOpsA {S : Type} (sys : Sys S) (proto : Proto) (strat : Strategy) (j : Na
 def iterOpsB {S : Type} (sys : Sys S) (proto : Proto) (strat : Strategy) (j : Nat) : List (Op Path) :=
   let b := baseOf strat j
   saveValues proto (.mhist b) (.mhistTmp b) (sys.encM j) ++
-    (match proto with | .asFound => [] | .repaired => saveMarker proto (sys.digits j)) ++
+    (match proto with | .asFound => [] | _ => saveMarker proto (sys.digits j)) ++
     appendFile .counting (sys.msgC j)
 
 /-- the sample files `_list_local_sample_files` finds: `<base>.0 … <base>.(c-1)` for the consecutive count `c`
@@ -150,12 +177,11 @@ def load {S : Type} (sys : Sys S) (strat : Strategy) (resume : Bool) (total : Na
       | none => .error .markerParse
       | some i =>
         let b := baseOf strat i
-        match fs (.mean b) with
-        | none => .error .noMean
-        | some mb =>
-          let files := listSamples fs b (sys.nsamp + 1) 0
-          if files.isEmpty then .error .noSamples else
-          match sys.decState mb files with
+        let files := listSamples fs b (sys.nsamp + 1) 0
+        if files.isEmpty then .error .noSamples else
+        -- isfile(<base>.mean.pickle) ? ResidualSampleList.load : SampleList.load followed by myassert(n_samples == 1)
+        if (fs (.mean b)).isNone && files.length != 1 then .error .noMean else
+          match sys.decState (fs (.mean b)) files with
           | none => .error .unpickle
           | some s =>
             if i + 1 = total then .ok (total, s, false)
@@ -204,16 +230,21 @@ def sAfter {S : Type} (sys : Sys S) (s0 : S) : Nat → S
   | j + 1 => sys.step j (sAfter sys s0 j)
 
 /-! concrete instance for the line-protocol driver and the `decide`d witnesses: state = list of iteration indices done;
-    sample k of state s = [len s, k, 255], mean = [len s, 254]; a consistent set decodes, a mixed one does not. -/
-def natSys (nsamp : Nat) : Sys Nat where
+    sample k of state s = [s, k, 255], mean = [s, 254] (VI; MAP: no mean file, one sample); a consistent set decodes, a
+    mixed one does not. -/
+def natSys (nsamp : Nat) (vi : Bool := true) : Sys Nat where
   step := fun j s => if s = j then j + 1 else 1000 + s      -- iteration j applied to the wrong state is visible
   nsamp := nsamp
   encSample := fun s k => [s, k, 255]
-  encMean := fun s => [s, 254]
+  encMean := fun s => if vi then some [s, 254] else none
   decState := fun m fl =>
     match m with
-    | [s, 254] => if fl = (List.range nsamp).map (fun k => [s, k, 255]) then some s else
-                    if fl.all (fun f => f.length = 3 ∧ f.getLast? = some 255) then some (2000 + s) else none
+    | some [s, 254] => if fl = (List.range nsamp).map (fun k => [s, k, 255]) then some s else
+                         if fl.all (fun f => f.length = 3 ∧ f.getLast? = some 255) then some (2000 + s) else none
+    | none =>                                     -- SampleList branch: the single sample is the state
+        match fl with
+        | [[s, 0, 255]] => if vi then some (2000 + s) else some s
+        | _ => none
     | _ => none
   encE := fun i => [i, 253]
   okE := fun b => b.getLast? = some 253
